@@ -40,7 +40,7 @@ def tla(v):
 
 
 def mc_run(configs, nc=3, maxb=4, maxm=2, seatset=(1, 2), ties=None, wds=((),), unds=((),), devs=ALL_DEVS,
-           check=GREG_CHECK, export=0, liveness=False, devneutral=False, workers=16, heap_mb=4096, timeout=3600, simulate=None, extra=()):
+           check=GREG_CHECK, export=0, liveness=False, devneutral=False, lemmas=(), workers=16, heap_mb=4096, timeout=3600, simulate=None, extra=()):
     ties = ties if ties is not None else [tuple(range(1, nc + 1))]
     mc = ['---- MODULE MC ----', 'EXTENDS Droop',
           'MC_CONFIGS == ' + tla(set()) if not configs else 'MC_CONFIGS == {' + ', '.join(tla(c) for c in configs) + '}',
@@ -52,7 +52,7 @@ def mc_run(configs, nc=3, maxb=4, maxm=2, seatset=(1, 2), ties=None, wds=((),), 
           'MC_KNOWNCL == ' + tla(set('KNOWN_' + e['id'] for e in vlib.load_known() if e.get('kind') == 'finding')),
           '====']
     cfg = ['SPECIFICATION %s' % ('FairSpec' if liveness else 'Spec'),
-           'INVARIANT PropsHold', 'INVARIANT Bounded', 'INVARIANT Exported'] + (['INVARIANT DevNeutral'] if devneutral else [])
+           'INVARIANT PropsHold', 'INVARIANT Bounded', 'INVARIANT Exported'] + (['INVARIANT DevNeutral'] if devneutral else []) + ['INVARIANT ' + l for l in lemmas]
     if liveness:
         cfg.append('PROPERTY Terminates')
     cfg += ['CONSTANTS', ' CONFIGS <- MC_CONFIGS', ' NC = %d' % nc, ' MAXB = %d' % maxb, ' MAXM = %d' % maxm,
@@ -74,7 +74,7 @@ def cases_of(out):
     return cs
 
 
-_FAILS = re.compile(r'^"(FAILS|DEVDIFF) (.*)"\s*$', re.M)
+_FAILS = re.compile(r'^"(FAILS|DEVDIFF|METAFAIL) (.*)"\s*$', re.M)
 
 
 def fails_of(out):
